@@ -1322,7 +1322,13 @@ def unwind_rule(ctx, P, fns, floor=10, only_readers=True, extra_allocs=(), extra
             if escapes or d in objects:
                 continue
             # temporary: every exit after an allocation passes a free (null-test edges of the local removed)
-            null_edges = set(paths.guard_edges(f, lambda fn, cc, pol, name=name: paths.cond_atoms(fn, cc, pol, subst=False) == (name, False)))
+            def _is_null_edge(fn, cc, pol, name=name, d=d):
+                # `if (!v)`, and the allocation tested where it is assigned: `if ((v = alloc()) == NULL)`
+                at = paths.cond_atoms(fn, cc, pol, subst=False)
+                if at is None or at[1] is not False or not (at[0] == name or at[0].startswith(name + " = ")):
+                    return False
+                return any(fn.k(x) == "DeclRef" and fn.nodes[x].get("decl") == d for x in fn.walk(cc))
+            null_edges = set(paths.guard_edges(f, _is_null_edge))
             for n, a in enumerate(allocs):
                 exits = set(c for c in f.calls() if f.nodes[c].get("callee") in ("exit", "abort"))
                 ok = paths.must_pass(f, a, lambda e: e in frees or e in exits, removed_edges=null_edges)
